@@ -99,6 +99,43 @@ def run(ctx):
             (flow.root_place(fn, t[2][0]) or (None,))[0] is not None and fn["locals"][flow.root_place(fn, t[2][0])[0]][1] == "valid_delegates"]
     ctx.floor("run:valid_delegates.insert", len(vins), 1, "valid_delegates.insert site")
 
+    # every addition to the validated-delegate set that can happen once validation has started is itself validated:
+    # the set is seeded (stored delegates) before the loop so that a failing delegate is *removed*; an addition after
+    # the loop would put a failed delegate back
+    from .c01 import validated_ok
+    adds = []
+    for bb, t, c in db.calls(fn):
+        n = c.get("n") or ""
+        if not t[2]:
+            continue
+        r_ = flow.root_place(fn, t[2][0])
+        if r_ is None or fn["locals"][r_[0]][1] != "valid_delegates":
+            continue
+        if re.search(r"::(insert|extend|append|extend_from_slice|push|replace|get_or_insert_with)$", n) or "Extend" in n:
+            adds.append(bb)
+    started = g.reach(hdr) if hdr else set()
+    late = [bb for bb in adds if bb in started]
+    ctx.floor("run:valid_delegates:additions", len(adds), 1, "additions to valid_delegates")
+    for bb in late:
+        okv, av, badv = rules.dom_check(db, fn, [bb], validated_ok)
+        ctx.check("dom:valid_delegates:add:%d" % late.index(bb), bool(okv and av),
+                  "once validation has started, a delegate is added to the validated set only behind a failure-free sigrefs::validate "
+                  "(a later unconditional addition would re-admit delegates that failed)", rules.where(fn, bb),
+                  detail={"path": list(badv.values())[:1]}, fn=fn)
+    # a failed delegate is taken out of the set
+    fd = [bb for bb, t, c in db.calls(fn) if (c.get("n") or "").endswith("BTreeSet::insert") and t[2] and
+          (flow.root_place(fn, t[2][0]) or (None,))[0] is not None and fn["locals"][flow.root_place(fn, t[2][0])[0]][1] == "failed_delegates"]
+    rm = [bb for bb, t, c in db.calls(fn) if (c.get("n") or "").endswith("BTreeSet::remove") and t[2] and
+          (flow.root_place(fn, t[2][0]) or (None,))[0] is not None and fn["locals"][flow.root_place(fn, t[2][0])[0]][1] == "valid_delegates"]
+    ctx.floor("run:failed_delegates.insert", len(fd), 2, "failed_delegates.insert sites")
+    for bb in fd:
+        # within the iteration: header -> bb avoiding remove, and bb -> header avoiding remove, must not both exist
+        pre = g.reach([tb for h in hdr for tb, _ in g.succ[h]], avoid_blocks=set(rm) | set(hdr))
+        post = g.reach([bb], avoid_blocks=set(rm))
+        bad_ = bb in pre and any(h in post for h in hdr)
+        ctx.check("pair:failed_delegate:removed:%d" % fd.index(bb), not bad_,
+                  "a delegate recorded as failed is removed from the validated set in the same iteration", rules.where(fn, bb), fn=fn)
+
     def anc(v):
         def p(f):
             return f[0] == "variant" and f[4] and f[3] == v and "repository::ancestry" in nshow(f[1])
